@@ -131,6 +131,7 @@ type Exec struct {
 	EndClock   time.Duration
 	Threads    int
 	Conflicts  int // operations that touched an object last touched by another thread
+	Stalls     int // clock advances to a future instant while some thread was enabled
 }
 
 // Config parametrises one execution.
@@ -166,6 +167,7 @@ type run struct {
 	horizon  int64
 	hit      bool
 	conflict int
+	stalls   int
 	schedG   gate
 	costBuf  []int8
 }
@@ -218,7 +220,7 @@ func Run(cfg Config, body func()) *Exec {
 	r.spawn("main", body)
 	r.loop()
 	ex := &Exec{Points: r.points, Steps: r.steps, HorizonHit: r.hit, Trace: r.trace, TraceHash: r.thash,
-		EndClock: time.Duration(r.clock), Threads: len(r.threads), Conflicts: r.conflict}
+		EndClock: time.Duration(r.clock), Threads: len(r.threads), Conflicts: r.conflict, Stalls: r.stalls}
 	for _, t := range r.threads {
 		if t.state != stDone {
 			ex.Parked = append(ex.Parked, ParkInfo{ID: t.ID, Name: t.Name, Op: t.op.String(), InCall: t.InCall, Site: t.site})
@@ -534,6 +536,9 @@ func (r *run) loop() {
 		r.steps++
 		if k == len(en) {
 			// clock transition
+			if !due && len(en) > 0 {
+				r.stalls++ // time passes although a thread could run: that thread is stalled
+			}
 			r.fireNext()
 			continue
 		}
